@@ -321,11 +321,11 @@ example :
 /-- … and they stay indistinguishable at every later time (hypothesis of `learns_at_most_existence_run`) when the
     hidden records do not differ in when they disappear. -/
 example :
-    let m : Store := [{ key := "k/secret", md := { secret := true }, fields := [("S", .prim (.str "password-1"))] },
-                      { key := "k/public", fields := [("S", .prim (.str "hello"))] }]
-    let m' : Store := [{ key := "k/secret", md := { secret := true, crown := true, created := 5 }, fields := [("S", .prim (.str "password-2"))] },
-                       { key := "k/public", fields := [("S", .prim (.str "hello"))] }]
-    lowEqFrom false false 10 m m' := by
+    lowEqFrom false false 10
+      [{ key := "k/secret", md := { secret := true }, fields := [("S", .prim (.str "password-1"))] },
+       { key := "k/public", fields := [("S", .prim (.str "hello"))] }]
+      [{ key := "k/secret", md := { secret := true, crown := true, created := 5 }, fields := [("S", .prim (.str "password-2"))] },
+       { key := "k/public", fields := [("S", .prim (.str "hello"))] }] := by
   intro t _ k
   by_cases h1 : "k/secret" = k
   · subst h1; simp [Store.get, vis, Meta.valid, Meta.permitted]
